@@ -5,6 +5,7 @@ CONSTANTS
  MaxFaults = 0
  MaxCrashes = 1
  MaxIdxLoss = 1
+ SyncFlush = TRUE
  InlineAt = 0
  Interval = 2
  MBs = {9}
